@@ -2,7 +2,9 @@
 
 Proofs: Props/C11.v (Model/FilterFlow.v: data flow of run_feedforward_filter on top of the event
 trace of Model/FeedforwardSched.v, block layout of the covariance / process-matrix assembly,
-Kalman recursion == one-shot Gauss-Markov solution for positive-definite data; compensation formulas
+Kalman recursion == one-shot Gauss-Markov solution for positive-definite data AND for singular process noise
+Qd = Gam Gam^T with invertible Phi (noise-parametrised batch problem, the one the numerical reference below
+solves); compensation formulas
 traced from the live _compute_feedforward_result by tools/reg/c11.py into Gen/C11Gen.v on every run).
 
 Tie between model and code (CALL-TRACE CORRESPONDENCE).  `pyins.kalman.correct`,
@@ -1224,8 +1226,11 @@ def check(r):
         "binary64 time arithmetic is exact on the generated (dyadic) stamps",
     ]
     r.assumptions += [
-        "Tier B (kalman_eq_batch_pd): P0, R_k positive definite, propagated covariances invertible; the real "
-        "system has singular process noise: that case is examined only by the one-shot numerical reference",
+        "Tier B: kalman_eq_batch_pd needs P0, R_k, Qd_k positive definite; kalman_eq_batch_singular_noise covers the "
+        "class of the real system -- Qd_k = Gam_k Gam_k^T of ANY rank, Phi_k invertible, P0 and R_k positive definite, "
+        "any N -- through the noise-parametrised batch problem (free variables x_0, w_k; no inverse of Qd); that "
+        "scipy's expm returns an invertible Phi and a Van Loan Qd that is a Gram matrix are hypotheses (properties "
+        "of the exact exponential, C08)",
         "floating-point agreement of the recursion with a batch solver is a numerical statement checked with "
         "tolerances relative to the reported standard deviations",
     ]
